@@ -235,6 +235,21 @@ def oneof_reached_twice() -> Spec:
     ], "A", "O", dur_nodes=("C1", "P"))
 
 
+def oneof_reached_via_nested() -> Spec:
+    """outer one-of [P, Q]; P consumes Feat = one-of[Ch, Ex]; Q consumes an inner one-of [D, E2] whose first candidate
+    D consumes Feat again.  D's sub-pipeline is built after Feat was resolved by Ch: the untried Ex must stay out."""
+    return Spec("oneof_reached_via_nested", [
+        Node("A"),
+        Node("Ch", (("a", In("A")),)), Node("Ex", (("a", In("A")),), kinds=F),
+        Node("Feat", (("v", OneOf(("Ch", "Ex"))),)),
+        Node("P", (("f", In("Feat")),), kinds=F),
+        Node("D", (("f", In("Feat")),)), Node("E2", (("a", In("A")),)),
+        Node("N", (("v", OneOf(("D", "E2"))),)),
+        Node("Q", (("n", In("N")),)),
+        Node("O", (("v", OneOf(("P", "Q"))),)),
+    ], "A", "O", dur_nodes=("Ch", "P"))
+
+
 def retry_attempts_zero() -> Spec:
     """attempts = 0 is 'unset' (NodeRetryPolicy: attempts or 1): exactly one invocation."""
     return Spec("retry_attempts_zero", [
@@ -402,6 +417,6 @@ TEMPLATES: Dict[str, Callable[..., Spec]] = {f.__name__: f for f in [
     chain, rhombus, fan, mixed_modes, switch_basic, switch_deep, switch_nested, switch_shared_case,
     switch_case_also_input, oneof_basic, oneof_depth, oneof_three, oneof_nested, oneof_sibling,
     oneof_chained, oneof_with_switch, oneof_with_switch_deep, oneof_shared_dep, oneof_diamond,
-    oneof_shared_inflight, oneof_diamond_shared, oneof_reached_twice, retry_attempts_zero, rec_simple, rec_inner_start, rec_outside_reader,
+    oneof_shared_inflight, oneof_diamond_shared, oneof_reached_twice, oneof_reached_via_nested, retry_attempts_zero, rec_simple, rec_inner_start, rec_outside_reader,
     rec_two_scopes, rec_outside_reader_slow, rec_side_input, rec_with_switch, rec_with_oneof, rec_in_oneof, rec_nested, retry_sibling, retry_chain,
 ]}
